@@ -38,20 +38,18 @@ let () =
     match kind with
     | "genc" ->
         (match words payload with
-         | hb :: he :: _ ->
-             let bits = n_of_hex hb and e_cpp = z_of_hex he in
+         | hb :: _ ->
+             let bits = n_of_hex hb in
              (match dbl_decompose bits with
               | None -> out id "M" (hex_of_n gds_encode_zero)   (* the harness sends zero only *)
               | Some ((neg, m), e) ->
-                  (* correspondence: the model with the exponent the implementation computed *)
-                  let bits' = hex_of_n (gds_encode_with e_cpp neg m e) in
+                  (* correspondence: the model is a function of the value alone *)
+                  let bits' = hex_of_n (gds_encode neg m e) in
                   out id "M" bits';
-                  (* specification level: that exponent must be one the theorems cover (the ideal one, or
-                     one more in the top binade below a power of 16, and still within the exponent byte) *)
-                  let in_byte = Z.leb (z_of_int (-64)) e_cpp && Z.leb e_cpp (z_of_int 63) in
-                  if gds_exponent_allowed m e e_cpp && in_byte then out id "S" bits'
-                  else out id "S" ("exponent-not-allowed: implementation chose " ^ hex_of_z e_cpp ^ ", ideal is " ^
-                                   hex_of_z (ideal_exponent m e)))
+                  (* specification level: within the format's range (16^-65 <= |x| < 16^63), where the
+                     round-trip theorem applies, the pattern is the one that decodes to exactly x *)
+                  if gds_in_range m e then out id "S" bits'
+                  else out id "S" "out-of-range")
          | _ -> out id "M" "bad-case")
     | "gdec" ->
         let bits = n_of_hex payload in
